@@ -10,8 +10,8 @@ from .. import scenario as sc, clauses as cl
 
 PROP = "C05"
 LEVEL = "exploration"
-RULE = ("Hypothesis cases: r = A x - b, n<=6, m > n / m = n / m < n (full rank), entries on a dyadic grid with cond(A) <= 1e3 "
-        "enforced by construction (diagonal repair, never rejection), ||A|| and ||b|| over two decades, x0 scale 0.1..100; no "
+RULE = ("Hypothesis cases: r = A x - b, n<=8, m > n / m = n / m < n (full rank), entries on a dyadic grid with cond(A) <= 1e3 "
+        "enforced by construction (diagonal repair, never rejection), ||A|| and ||b|| over two decades, x0 scale 0.1..1000; box sides from 0.01 to tens; no "
         "bounds / box around the unconstrained minimiser / box that cuts it off (active set non-empty) / box around x0; scaling "
         "on/off; npt in n+1..2n+1; default rhoend and budget. Reference optimum from scipy lsq_linear(bvls) (lstsq when "
         "unbounded), certified by a KKT check written in the harness; uncertified references are discarded and counted. "
@@ -59,13 +59,13 @@ def reference(case):
 
 @st.composite
 def cases(draw):
-    n = draw(st.integers(1, 6))
+    n = draw(st.sampled_from([1, 2, 3, 4, 5, 6, 2, 3, 4, 5, 6, 7, 8]))
     shape = draw(st.sampled_from(["over", "over", "square", "under"]))
     m = n + draw(st.integers(1, 3)) if shape == "over" else n if shape == "square" else max(1, n - draw(st.integers(1, 2)))
     sa = 10.0 ** draw(st.integers(-1, 1))
     A = repair_cond([[draw(sc.g8) for _ in range(n)] for _ in range(m)]) * sa
     b = [draw(sc.g8) * 10.0 ** draw(st.integers(-1, 1)) for _ in range(m)]
-    xs = draw(st.sampled_from([0.1, 1.0, 10.0, 100.0]))
+    xs = draw(st.sampled_from([0.1, 1.0, 10.0, 100.0, 1000.0]))
     x0 = [sc.dec(draw(sc.g10) * xs) for _ in range(n)]
     case = {"n": n, "m": m, "fam": "lin", "A": A.tolist(), "b": b, "x0": x0, "lower": None, "upper": None, "scaling": False,
             "npt": draw(st.integers(n + 1, min(2 * n + 1, (n + 1) * (n + 2) // 2))), "rhobeg": None, "rhoend": None,
@@ -73,7 +73,8 @@ def cases(draw):
     box = draw(st.sampled_from(["none", "around", "cut", "cut", "x0"]))
     if box != "none":
         xu = np.linalg.lstsq(np.array(case["A"]), np.array(b), rcond=None)[0]
-        w = [(0.5 + abs(draw(sc.g8))) * max(1.0, abs(xu[i]) * 0.1) for i in range(n)]
+        # sides from 0.01 (narrower than the default rhobeg in raw units: the documented reason to scale) to tens
+        w = [(0.5 + abs(draw(sc.g8))) * max(1.0, abs(xu[i]) * 0.1) * draw(st.sampled_from([1.0, 1.0, 1.0, 1.0, 0.05, 0.01])) for i in range(n)]
         if box == "around":
             lo = [xu[i] - w[i] for i in range(n)]
             up = [xu[i] + w[i] for i in range(n)]
